@@ -15,6 +15,7 @@ type pipeCase struct {
 	Reqs     [][]*resp.Bin `json:"reqs"`                // a null argument stands for a null bulk
 	Sizes    []int         `json:"sizes"`               // chunk sizes of the request stream
 	ErrCalls []int         `json:"err_calls,omitempty"` // handler calls (by sequence number) that return an error
+	NilCalls []int         `json:"nil_calls,omitempty"` // handler calls that return neither a message nor an error
 	GetMode  string        `json:"get_mode,omitempty"`
 	GetValue string        `json:"get_value,omitempty"`
 	Password string        `json:"password,omitempty"` // C20: server requires this password
@@ -69,8 +70,15 @@ func (c pipeCase) resultFn() func(cl *doubles.Call) doubles.Result {
 	for _, s := range c.ErrCalls {
 		errSet[s] = true
 	}
+	nilSet := map[int]bool{}
+	for _, s := range c.NilCalls {
+		nilSet[s] = true
+	}
 	base := getModeResult(c.GetMode, c.GetValue)
 	return func(cl *doubles.Call) doubles.Result {
+		if nilSet[cl.Seq] {
+			return doubles.Result{Nil: true}
+		}
 		if errSet[cl.Seq] {
 			return doubles.Result{Err: "ERR scripted handler error"}
 		}
@@ -170,6 +178,12 @@ func genPipeline(rt *rapid.T, avoid func(string) bool, maxReqs int, plain bool) 
 			c.ErrCalls = append(c.ErrCalls, rapid.IntRange(0, 2*n).Draw(rt, "errcall"))
 		}
 		labels["handler-error"] = true
+	}
+	if rapid.IntRange(0, 5).Draw(rt, "hnil") == 0 {
+		for j, k := 0, rapid.IntRange(1, 2).Draw(rt, "nnil"); j < k; j++ {
+			c.NilCalls = append(c.NilCalls, rapid.IntRange(0, 2*n).Draw(rt, "nilcall"))
+		}
+		labels["handler-nil-result"] = true
 	}
 	data, _ := resp.EncodeAll(c.values())
 	switch rapid.IntRange(0, 4).Draw(rt, "chunking") {
